@@ -17,7 +17,9 @@ VARIABLES
     \* @type: Seq(Seq(Int));
     out,
     \* @type: Seq(Seq(Int));
-    exp
+    exp,
+    \* @type: Seq(Int);
+    rt     \* an arbitrary 14-bit CC message, fixed at the start (for the round-trip theorem)
 
 Chans == 0..15
 States == [cn : (-1)..31, v : (-1)..127]
@@ -26,7 +28,7 @@ States == [cn : (-1)..31, v : (-1)..127]
 GhostOf(st) == IF st.cn = None THEN <<>> ELSE <<st.cn, st.v>>
 
 Init == /\ sc = [c \in Chans |-> Cc14Init] /\ gh = [c \in Chans |-> Cc14GhostInit]
-        /\ out = <<>> /\ exp = <<>>
+        /\ out = <<>> /\ exp = <<>> /\ rt = Msg3(0, 0, 0)
 
 Feed == \E s \in 128..255, d1 \in 0..127, d2 \in 0..127 :
     LET m == Msg3(s, d1, d2)  c == MsgChannel(m) IN
@@ -41,7 +43,7 @@ Feed == \E s \in 128..255, d1 \in 0..127, d2 \in 0..127 :
 Reset == /\ sc' = [c \in Chans |-> Cc14Reset(sc[c])] /\ gh' = [c \in Chans |-> Cc14GhostReset(gh[c])]
          /\ out' = <<>> /\ exp' = <<>>
 
-Next == Feed \/ Reset
+Next == (Feed \/ Reset) /\ UNCHANGED rt
 
 \* @type: ($cc14St) => Bool;
 InRangeStDummy(st) == TRUE
@@ -56,7 +58,12 @@ IndInv == /\ \A c \in Chans : InRangeSt(sc[c]) /\ Linked(sc[c], gh[c])
           /\ out = exp            \* C08: what the machine reports is what the property justifies
 
 \* an ARBITRARY state satisfying IndInv: Linked makes gh a function of sc
+\* C07 (scanner half) for ALL messages and ALL states consistent with IndInv:
+\*   apalache-mc check --init=IndInit --inv=RtInv --length=0 Ind_Cc14.tla
+RtInv == Cc14RoundTripOK(sc[rt[1]], rt)
+
 IndInit == /\ sc \in [Chans -> States] /\ gh = [c \in Chans |-> GhostOf(sc[c])]
+           /\ \E c \in Chans, n \in 0..31, v \in 0..16383 : rt = Msg3(c, n, v)
            /\ out = <<>> /\ exp = <<>>
            /\ IndInv
 ===============================================================================
